@@ -15,18 +15,6 @@ structure DSess where
       built, so every Put fires its listeners and then fails, and nothing is ever written -/
   refuse : Bool := false
 
-/-- Reference for one Put's callbacks, as a queue: take the first, note it, let what it registers join the
-    end of the queue, keep it unless it is once-only. (The code's index loop with in-place removal must agree.) -/
-def specFire : Nat → List PutCb → List PutCb × List Nat
-  | 0, q => (q, [])
-  | _ + 1, [] => ([], [])
-  | fuel + 1, cb :: rest =>
-    let rest' := match cb.spawn with
-      | some (id2, once2) => rest ++ [{ id := id2, once := once2 }]
-      | none => rest
-    let r := specFire fuel rest'
-    ((if cb.once then r.1 else cb :: r.1), cb.id :: r.2)
-
 def natsDot (l : List Nat) : String := if l.isEmpty then "-" else String.intercalate "." (l.map toString)
 
 def dOutStr (out : Option Bytes) : String :=
